@@ -68,6 +68,25 @@ Proof.
     ring.
 Qed.
 
+(** the translated gradient in chain-rule form: phi/Phi(z) * dz/dx with z = (t - mu)/sqrt v --
+    the formula the decidable spec [Gp.spec_grad_coord] evaluates (ratio = phi z / Phi z, sd = sqrt v) *)
+Lemma grad_chain_rule_form (phi Phi : R -> R) (t m v gm gv : R) :
+  0 < v -> 0 < phi ((t - m) / sqrt v) -> 0 < Phi ((t - m) / sqrt v) ->
+  grad phi Phi t m v gm gv =
+  phi ((t - m) / sqrt v) / Phi ((t - m) / sqrt v) * (- gm / sqrt v - (t - m) * gv / (2 * sqrt v * v)).
+Proof.
+  intros Hv Hp HP. unfold grad. cbv zeta.
+  assert (Hs : 0 < sqrt v) by (apply sqrt_lt_R0; exact Hv).
+  pose proof (sqrt_sqrt v (Rlt_le _ _ Hv)) as Hss.
+  generalize dependent (phi ((t - m) / sqrt v)). generalize dependent (Phi ((t - m) / sqrt v)).
+  intros Pz HPz pz Hpz.
+  set (s := sqrt v) in *. clearbody s. rewrite <- Hss.
+  (* exp(logpdf - logcdf) = pdf / cdf (no-op if the code divides directly) *)
+  try (replace (exp (ln pz - ln Pz)) with (pz / Pz)
+        by (unfold Rminus, Rdiv; rewrite exp_plus, exp_Ropp, (exp_ln _ Hpz), (exp_ln _ HPz); reflexivity)).
+  field. repeat split; apply Rgt_not_eq; assumption.
+Qed.
+
 (** cached fast path, [predictive_gradients]:  kx = rbf_var * exp(r2 * factor) and
     dkdx = 2 * factor * (x - X) * kx.  Along coordinate j (the other coordinates contribute the
     constant [c] to r2 = (x_j - a)^2 + c, [a] the evidence point's j-th coordinate) the second
